@@ -532,6 +532,7 @@ def check_C17(ctx, deep=False):
         return
     lifecycle_sessions(ctx, 30 if ctx.quick else 400)
     ending_sessions(ctx)
+    run_traced(ctx, ["garbage", "cont"], 10 if ctx.quick else 80)
 
 
 ENDING_TAILS = [b"", b"\n", b"\n\n\n", b"   \n", b"\t\n", b"\r\n", b" \t \r\n", b"   ", b"\t", b"\r", b"isrea", b"isready",
@@ -686,6 +687,157 @@ def lifecycle_sessions(ctx, n):
     if len(answers) > 1:
         ctx.fail("state-changed-by-ignored-input", answers=sorted(str(a) for a in answers))
     ctx.stats["zero_allowance_answers"] = sorted(str(a) for a in answers)
+
+
+# =====================================================================================
+# traced sessions (hook H5): the dispatch loop of play_game_uci against the model's `step`
+# =====================================================================================
+
+ZERO_GO = ["go", "go wtime 0 btime 0", "go wtime 100 btime 100", "go  foo  wtime 50   btime 50 bar", "go movestogo 5",
+           "go winc 0 binc 0", "go wtime -5 btime -5", "go infinite"]
+IGNORED = ["isready", "ucinewgame", "setoption name Foo value 3", "setoption name Hash value 64", "", "   ", "\t", "foo", "stop",
+           "ponderhit", "debug on", "xyzzy 1 2 3", "go2", "isready2", "positio startpos", "\u00e9", "  \t  ", "uci",
+           "  isready  ", "isready\r", "position2 startpos", "Position startpos", "GO", "quit2"]
+
+
+def _cont_line(stem):
+    return lambda answers, st=stem: "position " + st + ((" moves " + " ".join(answers)) if answers else "")
+
+
+def traced_scripts(ctx, families, n):
+    """deterministic scripts for the traced sessions; every go has a zero time slice"""
+    rnd = random.Random(ctx.seed + 41)
+    scripts = []
+    poslines = [o[4:] for o in C.genops("search", ctx.seed + 2, max(6, n), 40) if o.startswith("pos ")]
+    replines = [o[4:] for o in C.genops("rep", ctx.seed + 6, max(4, n // 2), 12, 4) if o.startswith("pos position")]
+
+    def sprinkle(items, p):
+        out = []
+        for it in items:
+            while rnd.random() < p:
+                out.append(("ignored", rnd.choice(IGNORED)))
+            out.append(it)
+        while rnd.random() < p:
+            out.append(("ignored", rnd.choice(IGNORED)))
+        return out
+    endings = ["eof", "quit", ("partial", "isrea"), ("partial", "   "), ("partial", "go"), "eof", "quit"]
+    if "cont" in families:
+        # a GUI playing a game through the engine: the position command grows by the engine's own answers
+        for stem in CONT_STEMS:
+            items = []
+            for ply in range(6):
+                items += [("position", _cont_line(stem)), ("go", rnd.choice(ZERO_GO))]
+            items += [("position", "position " + rnd.choice(CONT_STEMS)), ("go", "go"), ("position", _cont_line(stem)), ("go", "go")]
+            scripts.append(("cont:" + stem[:40], sprinkle(items, 0.25), rnd.choice(endings)))
+    if "gogo" in families:
+        # several go commands without a new position (the engine plays both sides from its own boards)
+        for pl in (CONT_STEMS[:8] + [p[9:] for p in poslines[:n]]):
+            pl = pl if pl.startswith(("fen ", "startpos")) else pl
+            items = [("position", "position " + pl)] + [("go", rnd.choice(ZERO_GO)) for _ in range(rnd.randrange(2, 6))]
+            scripts.append(("gogo:" + pl[:40], sprinkle(items, 0.15), rnd.choice(endings)))
+    if "garbage" in families:
+        for pl in poslines[:n]:
+            items = [("position", pl), ("go", rnd.choice(ZERO_GO)), ("position", rnd.choice(poslines)), ("go", rnd.choice(ZERO_GO))]
+            scripts.append(("garbage:" + pl[:40], sprinkle(items, 0.7), rnd.choice(endings)))
+        scripts.append(("garbage-only", [("ignored", g) for g in IGNORED], "eof"))
+    if "terminal" in families:
+        for t in TERMINAL:
+            items = [("position", t), ("go", rnd.choice(ZERO_GO)), ("ignored", "isready"), ("go", "go"),
+                     ("position", "position startpos moves e2e4"), ("go", "go")]
+            scripts.append(("terminal:" + t[:40], sprinkle(items, 0.2), rnd.choice(endings)))
+    if "rep" in families:
+        for pl in replines[:n]:
+            bare = pl.split(" moves ")[0]
+            items = [("position", pl), ("go", "go"), ("position", bare), ("go", "go"), ("position", pl), ("ignored", "ucinewgame"),
+                     ("position", bare), ("go", "go")]
+            scripts.append(("rep:" + pl[:40], sprinkle(items, 0.2), rnd.choice(endings)))
+    return scripts
+
+
+def run_traced(ctx, families, n):
+    """T2 for the dispatch loop: the real UCI loop (hook-enabled binary, state trace after every
+    command) against the model's `step` machine on the same script, plus implementation-only oracles:
+    ignored lines leave the state untouched (C17), the state after `position X` equals that of a
+    fresh process given only `position X` (C16), every go prints exactly one bestmove (C03/C08)."""
+    if ctx.bs.trace_engine_error:
+        ctx.t2.append({"op": "<hook-enabled engine build>", "impl": ctx.bs.trace_engine_error[-300:], "model": ""})
+        ctx.count("t2_diffs")
+        return
+    scripts = traced_scripts(ctx, families, n)
+    fresh_cache = {}
+
+    def fresh_state(cmd):
+        if cmd not in fresh_cache:
+            tr, _, prob = S.traced_session([cmd], "eof")
+            st = [l for l in (tr or []) if l.startswith("verifstate ")]
+            fresh_cache[cmd] = st[1] if len(st) >= 2 else None
+        return fresh_cache[cmd]
+
+    def one(sc):
+        name, items, ending = sc
+        tr, entries, prob = S.traced_session([it for _, it in items], ending)
+        return sc, tr, entries, prob
+    results = S.run_parallel(one, scripts, workers=8)
+    ops = []
+    for sc, tr, entries, prob in results:
+        if entries:
+            ops.append("sess " + S.esc_line("\n".join(entries)))
+    model = C.run_model_only(ops) if ops else []
+    mi = 0
+    for sc, tr, entries, prob in results:
+        name, items, ending = sc
+        ctx.count("traced_sessions")
+        if prob or not entries:
+            ctx.t2.append({"op": "traced session " + name, "impl": str(prob), "model": ""})
+            ctx.count("t2_diffs")
+            continue
+        m = model[mi].split(" ~~ ")
+        mi += 1
+        if m and m[-1] == "panic":
+            m[-1] = "exit 101"
+        ctx.case(("traced", name), True)
+        ctx.traces += 1
+        if m != tr:
+            # first point of disagreement
+            j = next((i for i in range(min(len(m), len(tr))) if m[i] != tr[i]), min(len(m), len(tr)))
+            ctx.t2diff({"op": "sess " + " | ".join(entries)[:600], "I": " ~~ ".join(tr[max(0, j - 1):j + 2])[:600],
+                        "M": " ~~ ".join(m[max(0, j - 1):j + 2])[:600]})
+        # implementation-only oracles on the transcript: split it at the state lines
+        segs = []
+        cur = None
+        for l in tr:
+            if l.startswith("verifstate "):
+                if cur is not None:
+                    segs.append(cur)
+                cur = [l]
+            elif cur is not None:
+                cur.append(l)
+        if cur is not None:
+            segs.append(cur)
+        # segs[i] = [state before command i, outputs of command i ...]; entries[1 + i] is command i
+        for i, (kind, _it) in enumerate(items):
+            if i + 1 >= len(segs) or i + 1 >= len(entries):
+                break
+            line = entries[1 + i].split(S.SEP)[0]
+            before, outs, after = segs[i][0], segs[i][1:], segs[i + 1][0]
+            if kind == "ignored":
+                toks = line.replace("\t", " ").replace("\r", " ").split()
+                if after != before:
+                    ctx.fail("state-changed-by-ignored-input", session=name, line=line, before=before[:200], after=after[:200])
+                exp = ["readyok"] if toks[:1] == ["isready"] else []
+                if outs != exp:
+                    ctx.fail("unexpected-output-for-ignored-input", session=name, line=line, output=outs[:3])
+            elif kind == "position":
+                fs = fresh_state(line)
+                if fs is not None and after != fs:
+                    ctx.fail("state-after-position-depends-on-earlier-traffic", session=name, line=line[:300],
+                             in_session=after[:260], fresh_process=fs[:260], script=[e.split(S.SEP)[0] for e in entries[1:2 + i]][-8:])
+                if outs:
+                    ctx.fail("unexpected-output-for-position", session=name, line=line[:200], output=outs[:3])
+            elif kind == "go":
+                nb = [o for o in outs if o.startswith("bestmove")]
+                if len(nb) != 1 or len(outs) != 1:
+                    ctx.fail("go-not-answered-by-exactly-one-bestmove", session=name, line=line, output=outs[:4])
 
 
 # =====================================================================================
@@ -1005,6 +1157,9 @@ def check_C10(ctx, deep=False):
     q = ctx.quick
     n = (150 if q else 4000) * (3 if deep else 1)
     ops = C.genops("rep", ctx.seed, n, 24, 6, "searchd_2")
+    # deeper iterations (null-move pruning active): only the ">= 0" clause is judged there — it is
+    # proved for every depth (root_score_nonneg_every_depth); exact values are not claimed beyond 3
+    ops += C.genops("rep", ctx.seed + 2, 24 if q else 600, 20, 6, "searchd_4")
     # several position commands in a row: the second must not see the first's table
     extra = [o for o in C.genops("rep", ctx.seed + 1, 40, 20, 5) if o.startswith("pos ")]
     ops += extra
@@ -1030,7 +1185,7 @@ def check_C10(ctx, deep=False):
             continue
         succ = C.succ_list(genr["I"])
         drawn = [m for m, s in succ if counts.get(s.split(" ")[6], 0) >= 2]
-        if drawn:
+        if drawn and srs[0]["I"] != "panic":
             ctx.count("roots_with_a_repeating_move")
             d = parse_search(C.impl_body(srs[0]["op"], srs[0]["I"]))
             roots = int(d.get("roots", "0"))
@@ -1042,10 +1197,16 @@ def check_C10(ctx, deep=False):
             for D, (kind, val, line) in last.items():
                 if D < roots and val < 0:
                     ctx.fail("repeating-move-available-but-score-negative", op=posr["op"], drawn_moves=drawn, line=line)
+                if D < roots and D >= 4:
+                    ctx.count("deep_iterations_with_a_repeating_move")
             ctx.sample({"pos": posr["op"][:160], "drawing_moves": drawn[:4], "final": [v[2] for v in last.values()][-1:]})
-        judge_depths(ctx, posr, srs[0], k, len(succ))
+        if srs[0]["op"].startswith("searchd ") and int(srs[0]["op"].split(" ")[1]) <= 3:
+            judge_depths(ctx, posr, srs[0], k, len(succ))
+        elif srs[0]["I"] == "panic":
+            ctx.fail("search-panic", where=[posr["op"], srs[0]["op"]])
     if not ctx.bs.engine_error:
         stale_table_session(ctx)
+        run_traced(ctx, ["rep"], 8 if q else 60)
 
 
 def stale_table_session(ctx):
@@ -1285,6 +1446,7 @@ def check_C03(ctx, deep=False):
             ctx.t2diff(r)
         oracle_fmt(ctx, r)
         oracle_state(ctx, r)       # a legal move that cannot be picked by its own text is mis-described
+    run_traced(ctx, ["gogo", "cont"], 8 if q else 60)
     # in-process part
     sops = search_positions(ctx, 10 if q else 60, 30, "sweep 60 3", with_rep=False)
     sops += forced_positions(ctx, 8 if q else 60, "sweep 14 1")
@@ -1439,6 +1601,7 @@ def check_C08(ctx, deep=False):
                 ctx.fail("responsiveness", status="late-null-move", position=pos, delay_ms=delay)
         if served is False:
             ctx.fail("responsiveness", status="not-served-afterwards", position=pos)
+    run_traced(ctx, ["terminal", "gogo"], 6 if q else 40)
     # in-process: a move is sent iff the root has one, whatever the expiry
     tops = []
     for t in TERMINAL:
@@ -1634,6 +1797,7 @@ def check_C16(ctx, deep=False):
                     ctx.fail("reported-improvements-depend-on-history", which=name, position=pos, traffic=traffic,
                              a=x[:m][-2:], b=y[:m][-2:])
     continuation_sessions(ctx, 10 if q else 24)
+    run_traced(ctx, ["cont", "rep", "gogo", "garbage"], 8 if q else 60)
     # static audit of process-global state (T3)
     hits = []
     for fn in sorted(os.listdir(os.path.join(C.REPO, "src"))):
